@@ -973,7 +973,7 @@ spifconf_parse_line(FILE * fp, spif_charptr_t buff)
               spif_char_t cmd[PATH_MAX], fname[PATH_MAX];
               spif_charptr_t outfile;
               int fd;
-              FILE *fp;
+              FILE *pp_fp;
 
               if (file_peek_preproc()) {
                   SPIFCONF_PARSE_RET();
@@ -984,10 +984,10 @@ spifconf_parse_line(FILE * fp, spif_charptr_t buff)
               snprintf((char *) cmd, PATH_MAX, "%s < %s > %s",
                        spiftool_get_pword(2, buff), file_peek_path(), fname);
               system((char *) cmd);
-              fp = fdopen(fd, "rt");
-              if (fp) {
+              pp_fp = fdopen(fd, "rt");
+              if (pp_fp) {
                   fclose(file_peek_fp());
-                  file_poke_fp(fp);
+                  file_poke_fp(pp_fp);
                   file_poke_preproc(1);
                   file_poke_outfile(outfile);
               } else {
